@@ -112,6 +112,10 @@ type Run struct {
 	chanSeq int
 
 	decidedCache map[*Term]int // term -> 1 true, 0 false (implied by the PC)
+	model        map[string]uint64 // a model of the current path condition, or nil
+	modelMemo    map[int]uint64
+	scratch      *TermStore
+	modelHits    int
 
 	wantSample bool
 	mapReverse bool
@@ -174,10 +178,39 @@ func (r *Run) assertPC(t *Term) {
 	}
 	r.pcN++
 	r.solver.Assert(t)
+	if r.model != nil && !r.evalBool(t) {
+		r.model = nil
+	}
 }
 
+// evalBool evaluates t under the current model (variables the model does not
+// know are taken as 0: they were created after the model and are not yet
+// constrained by the path condition).
+func (r *Run) evalBool(t *Term) bool {
+	return r.evalBits(t) != 0
+}
+
+func (r *Run) evalBits(t *Term) uint64 {
+	if r.scratch == nil || r.scratch.nextID > 50000 {
+		r.scratch = NewTermStore()
+	}
+	if r.modelMemo == nil {
+		r.modelMemo = make(map[int]uint64)
+	}
+	return evalTermS(r.scratch, t, r.model, r.modelMemo)
+}
+
+func (r *Run) setModel(m map[string]uint64) {
+	r.model = m
+	r.modelMemo = nil
+}
+
+// check decides PC ∧ extra and keeps the model of a sat answer.
 func (r *Run) check(extra *Term) Verdict {
-	v, _ := r.solver.Check(r.ts, extra, false, nil)
+	v, m := r.solver.Check(r.ts, extra, true, r.ts.vars)
+	if v == Sat && m != nil {
+		r.setModel(m)
+	}
 	return v
 }
 
@@ -211,26 +244,58 @@ func (r *Run) branch(c *Term) bool {
 		}
 		r.inconclusive("trail mismatch at branch: %d", v)
 	}
-	vt := r.check(c)
-	if vt == Unknown {
-		r.inconclusive("solver unknown on branch condition %s (%s)", c, r.solver.lastErr)
-	}
-	if vt == Unsat {
-		r.nForced++
-		r.record(2)
-		r.decidedCache[c] = 0
-		return false
-	}
 	nc := r.ts.Not(c)
-	vf := r.check(nc)
-	if vf == Unknown {
-		r.inconclusive("solver unknown on branch condition %s (%s)", nc, r.solver.lastErr)
-	}
-	if vf == Unsat {
-		r.nForced++
-		r.record(3)
-		r.decidedCache[c] = 1
-		return true
+	if r.model != nil {
+		// the model already witnesses one side; only the other needs a query
+		r.modelHits++
+		b := r.evalBool(c)
+		other := nc
+		if !b {
+			other = c
+		}
+		saved, savedMemo := r.model, r.modelMemo
+		vo := r.check(other)
+		if vo == Unknown {
+			r.inconclusive("solver unknown on branch condition %s (%s)", other, r.solver.lastErr)
+		}
+		if vo == Unsat {
+			r.nForced++
+			r.decidedCache[c] = 0
+			if b {
+				r.record(3)
+				r.decidedCache[c] = 1
+			} else {
+				r.record(2)
+			}
+			return b
+		}
+		// both sides feasible; we continue on the true side
+		if b {
+			r.model, r.modelMemo = saved, savedMemo
+		}
+	} else {
+		vt := r.check(c)
+		if vt == Unknown {
+			r.inconclusive("solver unknown on branch condition %s (%s)", c, r.solver.lastErr)
+		}
+		if vt == Unsat {
+			r.nForced++
+			r.record(2)
+			r.decidedCache[c] = 0
+			return false
+		}
+		saved, savedMemo := r.model, r.modelMemo
+		vf := r.check(nc)
+		if vf == Unknown {
+			r.inconclusive("solver unknown on branch condition %s (%s)", nc, r.solver.lastErr)
+		}
+		if vf == Unsat {
+			r.nForced++
+			r.record(3)
+			r.decidedCache[c] = 1
+			return true
+		}
+		r.model, r.modelMemo = saved, savedMemo
 	}
 	r.nDecided++
 	r.nForks++
@@ -278,12 +343,16 @@ func (r *Run) assume(c *Term) {
 		r.decidedCache[c] = 1
 		return
 	}
-	v := r.check(c)
-	if v == Unknown {
-		r.inconclusive("solver unknown on assumption %s (%s)", c, r.solver.lastErr)
-	}
-	if v == Unsat {
-		r.abort("vacuous", "assumption infeasible")
+	if r.model != nil && r.evalBool(c) {
+		r.modelHits++
+	} else {
+		v := r.check(c)
+		if v == Unknown {
+			r.inconclusive("solver unknown on assumption %s (%s)", c, r.solver.lastErr)
+		}
+		if v == Unsat {
+			r.abort("vacuous", "assumption infeasible")
+		}
 	}
 	r.record(1)
 	r.assertPC(c)
@@ -300,14 +369,12 @@ func (r *Run) concretize(t *Term, why string) uint64 {
 		if r.inPrefix() {
 			v0 = r.nextRecorded()
 		} else {
-			// ask for a model value
-			tmp := r.ts.Var(t.sort, fmt.Sprintf("cz!%d", t.id))
-			eq := r.ts.Eq(tmp, t)
-			verdict, model := r.solver.Check(r.ts, eq, true, []*Term{tmp})
-			if verdict != Sat {
-				r.inconclusive("concretize(%s): solver %v", why, verdict)
+			if r.model == nil {
+				if verdict := r.check(nil); verdict != Sat || r.model == nil {
+					r.inconclusive("concretize(%s): solver %v", why, verdict)
+				}
 			}
-			v0 = model[tmp.name]
+			v0 = r.evalBits(t)
 			r.record(v0)
 		}
 		if r.branch(r.ts.Eq(t, r.ts.Const(t.sort, v0))) {
